@@ -1,15 +1,17 @@
 """C05 at the diagram level (Layer W): the effective Hamiltonians handed to `time_evolve` against the Gallina
-model Contr/Heff.v.
+models Contr/Heff.v (site, link) and Contr/Heff2.v (two-site).
 
 Nothing is registered here.  harness/props/c05.py calls
-  * `capture(rec, algo, cp, x, heff)` from its time_evolve observer (sampled SITE and LINK calls): a snapshot of the
+  * `capture(rec, algo, cp, x, heff)` from its time_evolve observer (sampled SITE, LINK and TWO-SITE calls): a snapshot of the
     CURRENT state (deep copy, already made by the observer) and of the TTNO as model build programs
     (`ops_from_ttn`), the logical tensors as atoms, and the matrix the library built;
   * `run(ctx, cases, obs)` / `heff_instances(ctx, recs)` from `model`: per snapshot
       - the stores are rebuilt in Coq (`run`) and every build operation must be accepted,
       - `wf_heffb` (hypothesis of C05_heff_site_checked) and `heff_ok` (C05_heff_ok_sound: the result of `heff_site`
         IS the <psi|H|psi> network with the target's ket tensor and its twin removed, legs in the order of the updated
-        tensor) are evaluated by vm_compute -> per-instance obligations (`link_ok` for link calls),
+        tensor) are evaluated by vm_compute -> per-instance obligations (`wf_linkb` / `link_ok` for link calls;
+        `wf_twositeb` / `heff_two_ok` of Contr/Heff2.v for two-site calls: the state snapshot already holds the two-site
+        node "TwoSite_<a>_contr_<b>", the TTNO still has a and b - exactly what _contract_all_except_two_nodes reads),
       - the model diagram is evaluated with einsum on the captured atoms and compared with the matrix the library
         handed to time_evolve (1e-9 relative): a value-level tie, which also detects stale cache blocks because the
         model's blocks are always the fresh ones.
@@ -30,7 +32,7 @@ OOFF = 1000     # wire offset of the operator network
 OAOFF = 100     # atom offset of the operator network
 TOL = 1e-9
 
-IMPORTS = ("From Coq Require Import List Arith NArith. From PTN Require Import TTN.Store Contr.Blocks Contr.Closed Contr.Heff. "
+IMPORTS = ("From Coq Require Import List Arith NArith. From PTN Require Import TTN.Store Contr.Blocks Contr.Closed Contr.Heff Contr.Heff2. "
            "Import ListNotations.")
 
 
@@ -62,13 +64,11 @@ def ops_from_ttn(ttn):
 
 def capture(rec, algo, cp, x, heff):
     """called by the Recorder of c05.py at a time_evolve call on the tensor of node `x` of the state copy `cp`"""
-    st = rec.__dict__.setdefault("_wstate", {"site": 0, "link": 0, "nsite": 0, "nlink": 0})
-    if x.startswith("TwoSite_"):
-        return
-    kind = "link" if x.startswith("link_") else "site"
+    st = rec.__dict__.setdefault("_wstate", {"site": 0, "link": 0, "two": 0, "nsite": 0, "nlink": 0, "ntwo": 0})
+    kind = "two" if x.startswith("TwoSite_") else ("link" if x.startswith("link_") else "site")
     k = st[kind]
     st[kind] += 1
-    limit = rec.capture_w if kind == "site" else max(1, rec.capture_w // 2)
+    limit = max(1, rec.capture_w // 2) if kind == "link" else rec.capture_w
     if st["n" + kind] >= limit or (k + rec.wseed) % 2 != 0:
         return
     st["n" + kind] += 1
@@ -79,9 +79,16 @@ def capture(rec, algo, cp, x, heff):
              "heff": np.array(heff), "shape": [int(d) for d in np.asarray(cp.tensors[x]).shape]}
         if kind == "site":
             r["n"] = x
-        else:
+        elif kind == "link":
             a, b = x[len("link_"):].split("_with_")
             r.update({"a": a, "b": b, "l": x})
+        else:
+            # create_two_site_id(target, next): target = a is the node the update started from, next = b
+            ids = list(algo.hamiltonian.nodes)
+            ab = [(a, b) for a in ids for b in ids if a != b and x == "TwoSite_" + a + "_contr_" + b]
+            if len(ab) != 1:
+                raise ValueError(f"cannot read the pair off the identifier {x!r}")
+            r.update({"a": ab[0][0], "b": ab[0][1], "l": x})
         rec.wrecs.append(r)
     except Exception as e:  # noqa
         rec.wrecs.append({"kind": kind, "call": len(rec.log) - 1, "error": f"{type(e).__name__}: {e}"})
@@ -95,7 +102,8 @@ def _expr(r):
     offs = f"{coq_nat(OOFF)} {coq_nat(OAOFF)} {coq_nat(WOFF)} {coq_nat(AOFF)}"
     if r["kind"] == "site":
         return f"heff_case {kl} {ol} {offs} {coq_nat(idm(r['n']))}"
-    return f"link_case {kl} {ol} {offs} {coq_nat(idm(r['a']))} {coq_nat(idm(r['b']))} {coq_nat(idm(r['l']))}"
+    fn = "link_case" if r["kind"] == "link" else "heff_two_case"
+    return f"{fn} {kl} {ol} {offs} {coq_nat(idm(r['a']))} {coq_nat(idm(r['b']))} {coq_nat(idm(r['l']))}"
 
 
 def eval_open(summary, tables):
@@ -142,9 +150,12 @@ def check_one(r, val):
     if r["kind"] == "site":
         built, wf, ok, summ, atk, ato = val
         obl = [("build programme accepted", built is True), ("wf_heffb", wf is True), ("heff_ok", ok is True)]
-    else:
+    elif r["kind"] == "link":
         built, wf, ok, summ, atk, ato = val
         obl = [("build programme accepted", built is True), ("wf_linkb", wf is True), ("link_ok", ok is True)]
+    else:
+        built, wf, ok, summ, atk, ato = val
+        obl = [("build programme accepted", built is True), ("wf_twositeb", wf is True), ("heff_two_ok", ok is True)]
     what = f"{r['kind']} call {r['call']} ({r.get('n', r.get('l'))})"
     if summ is None or summ == "None":
         return obl, f"{what}: the model contraction does not go through (legs that cannot be paired)"
